@@ -320,6 +320,14 @@ def _verify_text(res, text, linemap, gen, out_dir, rlimit, timeout, extra_args):
             t = site["text"][0]
             snippet = t["text"][t["highlight_start"] - 1:t["highlight_end"] - 1] if len(site["text"]) == 1 else " ".join(x["text"].strip() for x in site["text"])
             snippet = " ".join(snippet.split())[:120]
+        if oid is None and kind == "decreases" and site:
+            # Verus reports a failed loop measure at the loop header: name it by the tagged `decreases` clause of that loop
+            for ln in range(site["line_start"], min(len(lines), site["line_start"] + 200) + 1):
+                t = lines[ln - 1].strip()
+                if t.startswith("decreases"):
+                    if ln in tagged:
+                        oid = tagged[ln]
+                    break
         if oid is None:
             # a failed precondition of a callee: name the callee clause when available
             callee = ""
